@@ -42,6 +42,8 @@ class FnSpec:
         self.hints = []          # dict(where, anchor, ord, lines, optional)
         self.replaces = []       # dict(old, new, count)
         self.closures = []       # (callee, signature template)
+        self.locals = None       # names bound by `let` / `for` / `while let` in the pinned text, in order (tools/mklocals.py)
+        self.params = None       # parameter names of the pinned signature, in order
         self.module = None       # module path in generated file, informational
         self.trusted = False
         self.sigreplace = []
@@ -113,6 +115,10 @@ def parse_sidecar(path):
                 cur.trusted = True
             elif kw == 'variant':
                 cur.extra['variant'] = rest
+            elif kw == 'locals':
+                cur.locals = rest.split()
+            elif kw == 'params':
+                cur.params = rest.split()
             elif kw == 'use':
                 cur.use_contract = rest
             elif kw == 'requires':
@@ -334,11 +340,91 @@ def split_sig_body(text):
     return head, text[m.start():p].rstrip(), text[p:]
 
 
+def bound_names(body):
+    """names bound by let / if let Some / while let Some / for, in order of appearance (comments and strings skipped)"""
+    out, p, n = [], 0, len(body)
+    clean = []
+    while p < n:
+        q = skip_trivia(body, p)
+        if q is not None:
+            clean.append(' ' * (q - p))
+            p = q
+            continue
+        clean.append(body[p])
+        p += 1
+    t = ''.join(clean)
+    for m in re.finditer(r"\blet\s+(?:Some\(\s*)?(?:mut\s+|&\s*)?([A-Za-z_]\w*)\b|\bfor\s+\(?\s*(?:mut\s+|&\s*)?([A-Za-z_]\w*)\b", t):
+        nm = m.group(1) or m.group(2)
+        if nm not in ('mut', 'ref', '_'):
+            out.append(nm)
+    return out
+
+
+def param_names(sig):
+    m = re.search(r'\bfn\s+\w+\s*(?:<[^(]*>)?\s*\(', sig)
+    if not m:
+        return []
+    e = match_brace(sig, m.end() - 1, '(', ')')
+    out = []
+    for part in re.split(r',(?![^<(]*[>)])', sig[m.end():e - 1]):
+        mm = re.match(r'\s*(?:mut\s+)?(&?\s*(?:mut\s+)?self|[A-Za-z_]\w*)\s*(?::|$)', part.strip())
+        if mm:
+            out.append(re.sub(r'[&\s]|mut', '', mm.group(1)) if 'self' in mm.group(1) else mm.group(1))
+    return out
+
+
+def rename_map(recorded, current, text):
+    """pinned name -> current name, for names that were RENAMED: same number of bindings, the pinned name no longer occurs in the
+    function's text at all, the name now at its ordinal is new.  Anything else (added/removed/reordered bindings) maps nothing."""
+    if not recorded or len(recorded) != len(current):
+        return {}
+    words = set(re.findall(r'[A-Za-z_]\w*', text))
+    mp = {}
+    for old, new in zip(recorded, current):
+        if old != new and old not in words and new not in recorded:
+            if mp.get(old, new) != new:
+                return {}
+            mp[old] = new
+    return mp
+
+
+def apply_renames(spec, contract, mp):
+    import copy
+    rx = re.compile(r'(?<![\w.])(' + '|'.join(re.escape(k) for k in sorted(mp, key=len, reverse=True)) + r')\b')
+    sub = lambda l: rx.sub(lambda m_: mp[m_.group(1)], l)
+    sp, con = copy.deepcopy(spec), copy.deepcopy(contract)
+    for c in (sp, con):
+        c.requires = [sub(l) for l in c.requires]
+        c.ensures = [(n, t, [sub(l) for l in ls]) for n, t, ls in c.ensures]
+    for lp in sp.loops:
+        for k in ('inv', 'inv_eb', 'ensures'):
+            lp[k] = [(n, t, [sub(l) for l in ls]) for n, t, ls in lp[k]]
+        lp['decreases'] = [sub(l) for l in lp['decreases']]
+        lp['sig'] = sub(lp['sig'])
+    for h in sp.hints:
+        h['lines'] = [sub(l) for l in h['lines']]
+        h['anchor'] = sub(h['anchor'])
+    for r in sp.replaces:
+        if not r.get('regex'):
+            r['old'], r['new'] = sub(r['old']), sub(r['new'])
+    return sp, con
+
+
 def inject(spec, text, contract, warnings, vac=False):
     """returns Out for one function under contract"""
     out = Out()
     fnm = spec.key
     head, sig, body = split_sig_body(text)
+    # renamed locals / parameters: the annotations follow the rename (recorded as a notice); see rename_map for the guards
+    mp = rename_map(spec.locals, bound_names(body), sig + body)
+    mp.update(rename_map(spec.params, param_names(sig), sig + body))
+    if mp and not spec.trusted:
+        if not vac:
+            NOTICES.append('%s: renamed in the source, annotations follow: %s' % (fnm, ', '.join('%s -> %s' % kv for kv in sorted(mp.items()))))
+        same = contract is spec
+        spec, contract = apply_renames(spec, contract, mp)
+        if same:
+            contract = spec
     head = strip_doc_comments(strip_attrs(head, DROP_ATTRS))
     for old, new in spec.sigreplace:
         if old not in sig:
